@@ -1314,3 +1314,6 @@ ENGINES = [
     Engine('flow-text', gen.flow_cases, _tagged('flow', check_flow), quick=250, thorough=6000, batch=125, fixed_cases=fixed_flow),
     Engine('api-lines', api_lines.line_cases, _tagged('lines', check_api_lines), quick=300, thorough=8000, batch=150, fixed_cases=fixed_lines, quick_s=30.0),
 ]
+for _engine in ENGINES[:3]:
+    # a parser that does not come back is no answer at all (met: an unterminated bgp-prefix-sid list in a configuration file)
+    _engine.case_timeout = 60
